@@ -17,7 +17,7 @@ That np.interp is the piecewise-linear interpolant and column independence under
 """
 from __future__ import annotations
 
-from ..absint import TOP, Evaluator, FuncV, Lin, Obj, SliceV, Sym, Unmodelled
+from ..absint import Raised, TOP, Evaluator, FuncV, Lin, Obj, SliceV, Sym, Unmodelled
 from ..harness import da_attr_models, da_method_models
 from ..kernel import KernelEval, OrderType
 from ..xmodel import dimsym, make_da, make_grid
@@ -253,6 +253,8 @@ def _threading(ctx, P):
             ctx.ok("R08.1", "linear_interpolation -> kernel", "kernel options via apply_ufunc(kwargs=...), suffix consumed by the naming wrapper")
     except Unmodelled as e:
         ctx.unknown("R08.1", "linear_interpolation -> kernel", str(e))
+    except Raised as r:
+        ctx.report("R08.1", raw, "linear_interpolation -> kernel", f"a plain call of the wrapper raises {r.typ}" + (f" ({r.msg})" if r.msg else ""))
     # dead parameters of transform
     import ast
 
